@@ -100,6 +100,9 @@ def OTy.valid (O : Oracles) : OTy → WVal → Bool
   | .listStr, _ => false
   | .dict, v => v.isDict
   | .uri fl, v => uriOk O fl v
+  | .strUri n, .null => n
+  | .strUri _, .str s => O.uriCheck false false false s
+  | .strUri _, _ => false
   | .forwardFor atParse, .list xs => !atParse || xs.all ffItemParseOk
   | .forwardFor _, _ => false
   | .boolOrNull, v => v.isNull || v.isBool
@@ -280,6 +283,8 @@ def OptStep.specViolation (specUri : Bool → Bool → Bool → Str → Bool) (m
   | .dict, .dictNS _ => none
   | .dict, _ => some cs!"type"
   | .uri fl, v => if specUriOk specUri fl v then none else some cs!"uri"
+  | .strUri _, .str x => if specUri false false false x then none else some cs!"uri"
+  | .strUri _, _ => some cs!"type"
   | .forwardFor _, .list xs => if xs.all ffItemCtorOk then none else some cs!"type"
   | .forwardFor _, _ => some cs!"type"
   | .strOrNull, v => if v.isStr then none else some cs!"type"
@@ -296,6 +301,52 @@ def PosStep.specViolation (specUri : Bool → Bool → Bool → Str → Bool) (m
   | .opts => none
   | .uriByMatch f _ key _ => if specUriOk specUri (matchFlags (strOf (m.get key))) (m.get f) then none else some (f, cs!"uri")
 
+/-! ### the Spec's OWN field table
+
+Which details/options are URIs or ids is a fact of the WAMP protocol, not of `message.py`.  The table below is written
+from the WAMP specification (message definitions of the basic and advanced profile) by class name and attribute name
+and is NOT read from `σ.pos` / `σ.opts`, so that a field the parser model (and the code) treats as a plain string or a
+plain int is still judged as what the protocol says it is. -/
+
+inductive SpecKind
+  | uri          -- a concrete URI (loose grammar, no empty components)
+  | id           -- a WAMP id, 0 … 2^53
+  | idList       -- a list of WAMP ids
+
+def specDetailTable : List (Str × Str × SpecKind) :=
+  [(cs!"Welcome", cs!"realm", .uri),
+   (cs!"Event", cs!"topic", .uri),
+   (cs!"Invocation", cs!"procedure", .uri),
+   (cs!"Unsubscribed", cs!"reason", .uri),
+   (cs!"Unregistered", cs!"reason", .uri),
+   (cs!"Interrupt", cs!"reason", .uri),
+   (cs!"Hello", cs!"resume_session", .id),
+   (cs!"Error", cs!"callee", .id),
+   (cs!"Event", cs!"publisher", .id),
+   (cs!"Call", cs!"caller", .id),
+   (cs!"Result", cs!"callee", .id),
+   (cs!"Invocation", cs!"caller", .id),
+   (cs!"Yield", cs!"callee", .id),
+   (cs!"Unsubscribed", cs!"subscription", .id),
+   (cs!"Unregistered", cs!"registration", .id),
+   (cs!"Publish", cs!"exclude", .idList),
+   (cs!"Publish", cs!"eligible", .idList)]
+
+/-- absent (`None`) is always fine; a present value must be what the protocol says -/
+def specKindOk (specUri : Bool → Bool → Bool → Str → Bool) : SpecKind → WVal → Bool
+  | _, .null => true
+  | .uri, .str s => specUri false false false s
+  | .uri, _ => false
+  | .id, .int i => specIdOk i
+  | .id, _ => false
+  | .idList, .list xs => allIdOk xs
+  | .idList, _ => false
+
+def Schema.tableEntries (σ : Schema) : List (Str × Str × SpecKind) := specDetailTable.filter (fun e => e.1 == σ.name)
+
+def Schema.tableViolations (σ : Schema) (specUri : Bool → Bool → Bool → Str → Bool) (m : Msg) : List (Str × Str) :=
+  σ.tableEntries.filterMap (fun e => if specKindOk specUri e.2.2 (m.get e.2.1) then none else some (e.2.1, cs!"spec-table"))
+
 def Schema.specViolations (σ : Schema) (specUri : Bool → Bool → Bool → Str → Bool) (m : Msg) : List (Str × Str) :=
   (match specCodes.find? (fun e => e.1 == σ.name) with
    | some e => if e.2 == σ.code then [] else [(cs!"type_code", cs!"code")]
@@ -307,6 +358,7 @@ def Schema.specViolations (σ : Schema) (specUri : Bool → Bool → Bool → St
        (if (m.get cs!"payload").isNull || (m.get cs!"payload").isBytes then [] else [(cs!"payload", cs!"type")]) ++
        (if (m.get cs!"args").isNull || (m.get cs!"args").isList then [] else [(cs!"args", cs!"type")]) ++
        (match m.get cs!"kwargs" with | .null => [] | .dict _ => [] | _ => [(cs!"kwargs", cs!"type")])
-   | none => [])
+   | none => []) ++
+  σ.tableViolations specUri m
 
 end Abverif.Wamp
